@@ -99,7 +99,7 @@ class Sim(object):
     def log(self, kind, detail=None):
         """Record an I/O- or API-level event in the history; returns seq."""
         self.seq += 1
-        if kind in self.PROGRESS_KINDS:
+        if kind in self.PROGRESS_KINDS and not self.aborting:
             self.last_progress_step = self.steps
         cur = self.current
         tid = cur.tid if cur is not None and not self.in_sched else -1
